@@ -36,7 +36,7 @@ func childV(q codecs.PartialBatchQuery) hv.V {
 
 // partialCodec runs the proxy's partial decoder and encoder on one body, exactly the way
 // client.Receive does (DecodeBody over a FrameBodyReader), guarding against panics and hangs.
-func partialCodec(v primitive.ProtocolVersion, op primitive.OpCode, body []byte) hv.V {
+func partialCodec(v primitive.ProtocolVersion, op primitive.OpCode, body []byte, prefix []byte) hv.V {
 	type res struct{ v hv.V }
 	ch := make(chan res, 1)
 	go func() {
@@ -45,8 +45,12 @@ func partialCodec(v primitive.ProtocolVersion, op primitive.OpCode, body []byte)
 				ch <- res{hv.L(hv.I(2))}
 			}
 		}()
-		hdr := hdrFor(v, op, len(body))
-		b, err := codecs.CustomRawCodec.DecodeBody(hdr, codecs.NewFrameBodyReader(body))
+		hdr := hdrFor(v, op, len(body)+len(prefix))
+		if len(prefix) > 0 {
+			// frame-level shape: a custom payload precedes the message inside the same body reader
+			hdr.Flags = hdr.Flags.Add(primitive.HeaderFlagCustomPayload)
+		}
+		b, err := codecs.CustomRawCodec.DecodeBody(hdr, codecs.NewFrameBodyReader(append(append([]byte{}, prefix...), body...)))
 		if err != nil {
 			ch <- res{hv.L(hv.I(0))}
 			return
@@ -68,11 +72,22 @@ func partialCodec(v primitive.ProtocolVersion, op primitive.OpCode, body []byte)
 			return
 		}
 		var buf bytes.Buffer
-		if err := codecs.CustomRawCodec.EncodeBody(hdr, b, &buf); err != nil {
+		var mc message.Codec
+		for _, c := range codecs.CustomMessageCodecs {
+			if c.GetOpCode() == op {
+				mc = c
+			}
+		}
+		if err := mc.Encode(b.Message, &buf, v); err != nil {
 			ch <- res{hv.L(hv.I(4))}
 			return
 		}
-		ch <- res{hv.L(hv.I(1), fields, hv.B(buf.Bytes()))}
+		n, err := mc.EncodedLength(b.Message, v)
+		if err != nil {
+			ch <- res{hv.L(hv.I(4))}
+			return
+		}
+		ch <- res{hv.L(hv.I(1), fields, hv.B(buf.Bytes()), hv.I(int64(n)))}
 	}()
 	select {
 	case r := <-ch:
@@ -86,8 +101,18 @@ func genC11(ctx *Ctx) {
 	r := ctx.Rng
 	maxVal := ctx.Scale(24, 300)
 	emit := func(v primitive.ProtocolVersion, op primitive.OpCode, body []byte, valid bool, ref hv.V, kind string) {
-		in := hv.L(hv.I(int64(op)), hv.I(int64(v)), hv.B(body), hv.Bool(valid), ref)
-		ctx.Emit(in, partialCodec(v, op, body), kind)
+		var prefix []byte
+		if v >= primitive.ProtocolVersion4 && r.Intn(3) == 0 {
+			// [bytes map] with one entry
+			k, val := gen.Text(r, 12), r.Bytes(r.Intn(20))
+			prefix = append(prefix, 0, 1, byte(len(k)>>8), byte(len(k)))
+			prefix = append(prefix, k...)
+			prefix = append(prefix, 0, 0, 0, byte(len(val)))
+			prefix = append(prefix, val...)
+			kind += "+payload"
+		}
+		in := hv.L(hv.I(int64(op)), hv.I(int64(v)), hv.B(body), hv.Bool(valid), ref, hv.B(prefix))
+		ctx.Emit(in, partialCodec(v, op, body, prefix), kind)
 		ctx.Count(fmt.Sprintf("%s:v%d:op%d", kind, v, op))
 	}
 	mutate := func(v primitive.ProtocolVersion, op primitive.OpCode, body []byte) {
